@@ -96,7 +96,9 @@ var (
 
 func outcomeHash(out string, err error) string {
 	if err != nil {
-		return "ERR " + err.Error()
+		// the error text may span lines and end in white space: compare its hash
+		eh := sha256.Sum256([]byte(err.Error()))
+		return "ERR " + hex.EncodeToString(eh[:])
 	}
 	h := sha256.Sum256([]byte(out))
 	return "OK " + hex.EncodeToString(h[:])
